@@ -97,9 +97,10 @@ def sx_item(it):
 
 
 def model_sx(case, mode):
-    """((item ..) ((rust ts) ..) zod): files concatenated in path order (the set-level model does
-    not depend on the order in which the implementation's hash map yields the files)."""
-    items = [sx_item(i) for rel in sorted(case["files"]) for i in case["files"][rel]]
+    """((item ..) ((rust ts) ..) zod): files concatenated in the order the implementation visits them."""
+    # analyze_project visits the files in sorted PathBuf order (component-wise): the first emit site of an
+    # event name decides its listener's payload type
+    items = [sx_item(i) for rel in sorted(case["files"], key=lambda r: r.split("/")) for i in case["files"][rel]]
     maps = sorted((case.get("config") or {}).get("typeMappings", {}).items())
     return [items, [[k, v] for k, v in maps], mode == "zod"]
 
@@ -143,6 +144,18 @@ def adversarial():
     out.append(("event-twice-two-fns", project([USER, fn("touch", [APP, ("u", P("User"))], None, [emit("user-updated", ["var", "u"])]),
                                                 fn("poke", [APP, ("u", P("User"))], None, [emit("user-updated", ["var", "u"])])])))
     out.append(("events-mangle-to-one", project([fn("tick", [APP], None, [emit("user-updated", ["unit"]), emit("user_updated", ["str"])])])))
+    out.append(("event-names-not-identifiers", project([USER, fn("announce", [APP, ("u", P("User"))], None,
+                                                                 [emit("user:created/now", ["var", "u"]), emit("app://ready", ["unit"]), emit("2nd.try", ["str"])])])))
+    out.append(("event-twice-different-payloads", project(None, files={
+        "src/a.rs": [fn("first", [APP, ("u", P("User"))], None, [emit("changed", ["var", "u"])])],
+        "src/a/b.rs": [fn("second", [APP, ("s", P("Status"))], None, [emit("changed", ["var", "s"])])],
+        "src/lib.rs": [USER, STATUS]})))
+    out.append(("events-mangle-colon-vs-dash", project([fn("tick2", [APP], None, [emit("job:done", ["unit"]), emit("job-done", ["str"])])])))
+    out.append(("ipc-channel", project([USER, STATUS, fn("watch_ipc", [("on_ev", P("Channel", P("User"), segs=["ipc"])), ("id", P("i32"))], P("Status")),
+                                        fn("watch_only", [("on_ev", P("Channel", P("Vec", P("Status")), segs=["ipc"]))], None)])))
+    out.append(("zod-enum-everywhere", project([STATUS, st("Job", [("st", P("Status")), ("hist", P("Vec", P("Status")))]),
+                                                fn("job", [("s", P("Option", P("Status"))), ("ch", P("Channel", P("Status")))], P("Vec", P("Status"))),
+                                                fn("fire_status", [APP, ("s", P("Status"))], None, [emit("status", ["var", "s"])])])))
     out.append(("struct-named-cmd-params", project([st("GetUserParams", [("x", P("i32"))]),
                                                     fn("get_user", [("id", P("i32")), ("p", P("GetUserParams"))], None)])))
     out.append(("commands-mangle-to-one", project([fn("get_user", [], P("i32")), fn("getUser", [], P("i32"))])))
@@ -227,8 +240,11 @@ def random_case(rng, wild=False):
             if isinstance(s, dict):
                 s["pl"] = stmt_pl(s)
                 if not wild or rng.random() < 0.6:
-                    s["emit"] = "%s-%d" % (s["emit"], k)      # distinct listener names
+                    s["emit"] = "%s-%d" % (s["emit"], k)      # distinct event names (the same name twice is one listener)
                     k += 1
+                if rng.random() < 0.3:
+                    # characters that are not legal in identifiers are mangled to underscores
+                    s["emit"] = s["emit"].replace("-", rng.choice([":", "/", ".", " ", "::"]))
     names = meta["names"]
     if wild:
         # custom types under every constructor at returns as well
